@@ -29,6 +29,10 @@ class EdgeData(ElementBase):
         # what goes into blockMeshDict's edge definition
         return self.kind
 
+    def reverse(self) -> None:
+        """Call when the edge is to be traversed in the opposite direction;
+        flips data that depends on it (most edge kinds have none)"""
+
 
 class Line(EdgeData):
     """A 'line' edge is created by default and needs no extra parameters"""
@@ -89,6 +93,9 @@ class Angle(EdgeData):
     def __init__(self, angle: float, axis: VectorType):
         self.angle = angle
         self.axis = Vector(f.unit_vector(axis))
+
+    def reverse(self) -> None:
+        self.angle = -self.angle
 
     def translate(self, displacement):
         """Axis is not to be translated"""
@@ -172,6 +179,9 @@ class Spline(OnCurve):
     def __init__(self, points: PointListType):
         curve = DiscreteCurve(points)
         super().__init__(curve, n_points=len(points), representation=self.kind)
+
+    def reverse(self) -> None:
+        self.curve.array.points = self.curve.array.points[::-1].copy()
 
     @property
     def parts(self):
